@@ -178,3 +178,33 @@ func VxH_C03_page() {
 		vx.Assert("nth-no-witness", a*n+b != page.Index+1)
 	}
 }
+
+// sheet order and origins as assembled by GetAllComputedStyles: presentational hints rank
+// as author rules of zero specificity (any author rule declared later wins), the user
+// agent sheet loses to everything, user rules lose to author rules.
+func VxH_C03_sheets() {
+	root := &utils.HTMLNode{Type: html.ElementNode, Data: "html", DataAtom: atom.Html}
+	style := &html.Node{Type: html.ElementNode, Data: "style", DataAtom: atom.Style}
+	style.AppendChild(&html.Node{Type: html.TextNode, Data: "p{orphans:5}"})
+	p := &html.Node{Type: html.ElementNode, Data: "p", DataAtom: atom.P}
+	(*html.Node)(root).AppendChild(style)
+	(*html.Node)(root).AppendChild(p)
+	mk := func(id string, val int) CSS {
+		spec := selector.Specificity{vx.Int(id+"a", 0, 3), vx.Int(id+"b", 0, 3), vx.Int(id+"c", 0, 3)}
+		return CSS{matcher: matcher{{
+			selector:     selector.SelectorGroup{vxSel{spec}},
+			declarations: []validation.Declaration{{Name: pr.PropKey{KnownProp: pr.POrphans}, Value: pr.Int(val)}},
+		}}}
+	}
+	doc := &HTML{Root: root, mediaType: "print"}
+	doc.UAStyleSheet = mk("ua", 11)
+	doc.PHStyleSheet = mk("ph", 12)
+	var user []CSS
+	if vx.Bool("user-sheet") {
+		user = append(user, mk("user", 13))
+	}
+	sf := GetAllComputedStyles(doc, user, vx.Bool("presentational-hints"), nil, nil, nil, nil, false, nil)
+	got := int(sf.Get((*utils.HTMLNode)(p), "").GetOrphans())
+	vx.Reach("computed")
+	vx.Assert("author-rule-wins", got == 5)
+}
